@@ -85,3 +85,100 @@ Theorem C12_pin_schema_templates_closed :
              known_guard (fst e) &&
              forallb (fun p => match p with PLit _ => true | PHole h => known_hole h end) (snd e)) gbnf_schema_prog = true.
 Proof. exact pin_schema_prog_closed. Qed.
+
+(* ==== compile_wf: every grammar compiled from a safe schema is well-formed GBNF ================================ *)
+From OV Require Import Gbnf.WfAuto Gbnf.WfLines Gbnf.WfText Gbnf.WfMain.
+
+(* the statement with the hypothesis safe_schema only (same Prop as C12_compile_wf_under_safe_schema_OPEN) ... *)
+Definition C12_compile_wf_full_under_safe_schema : Prop :=
+  forall s env, safe_schema s env = true -> wf_text (compile_schema s env) = true.
+
+(* ... is FALSE: a REGEX member whose character class contains NUL passes clause 5 (Safe.line_rule runs the
+   recogniser without the C-string cut) but gbnf_parse cuts the text at the NUL, inside the class (code 1) *)
+Theorem C12_compile_wf_under_safe_schema_refuted : ~ C12_compile_wf_under_safe_schema_OPEN.
+Proof. exact compile_wf_full_refuted. Qed.
+
+Theorem C12_compile_wf_refuted_nul_witness :
+  safe_schema nul_regex_schema true = true /\ regex_nul_free nul_regex_schema = false
+  /\ wf_text_code (compile_schema nul_regex_schema true) = 1%N.
+Proof. exact compile_wf_full_refuted_witness. Qed.
+
+(* MAIN THEOREM: safe_schema + (the compiled pattern of every picked REGEX member has no NUL) *)
+Theorem C12_compile_wf : forall s env,
+  safe_schema s env = true -> regex_nul_free s = true -> wf_text (compile_schema s env) = true.
+Proof. exact compile_wf_nul_free. Qed.
+
+(* the same with the extra clause on the SOURCE patterns (_compile_regex never introduces a NUL) *)
+Theorem C12_compile_wf_src : forall s env,
+  safe_schema s env = true -> regex_src_nul_free s = true -> wf_text (compile_schema s env) = true.
+Proof. exact compile_wf_src. Qed.
+
+Theorem C12_compile_regex_nul_free : forall p, forallb nz p = true -> forallb nz (compile_regex p) = true.
+Proof. exact compile_regex_nz. Qed.
+
+(* the recognised grammar is known explicitly *)
+Theorem C12_compile_parse_wf : forall s env,
+  safe_schema s env = true -> regex_nul_free s = true ->
+  gbnf_parse (compile_schema s env) = Some (grammar_of s env) /\ wf (grammar_of s env) = true.
+Proof. exact compile_parse_wf. Qed.
+
+(* if the scope clause of safe_schema is extended by regex_nul_free the design statement holds as written *)
+Theorem C12_compile_wf_modulo_nul : forall s env,
+  safe_schema s env && regex_nul_free s = true -> wf_text (compile_schema s env) = true.
+Proof. exact compile_wf_full_modulo_nul. Qed.
+
+(* stages: no field / no picked REGEX member need no extra clause *)
+Theorem C12_compile_wf_partial_no_fields : forall s env,
+  safe_schema s env = true -> sc_fields s = [] -> wf_text (compile_schema s env) = true.
+Proof. exact compile_wf_no_fields. Qed.
+
+Theorem C12_compile_wf_partial_no_regex : forall s env,
+  safe_schema s env = true -> no_regex s = true -> wf_text (compile_schema s env) = true.
+Proof. exact compile_wf_no_regex. Qed.
+
+(* ---- the ingredients ----------------------------------------------------------------------------------------------- *)
+(* FRAME: the automaton never reads the finished rules ... *)
+Theorem C12_step_frame : forall R st c, gbnf_step false (pre R st) c = pre R (gbnf_step false st c).
+Proof. exact step_pre. Qed.
+
+(* ... so a line recognised on its own is recognised after any finished rules *)
+Theorem C12_line_frame : forall l r R,
+  line_rule l = Some r -> run false (top R) (l ++ [c_nl]) = top (R ++ [r]).
+Proof. exact line_frame. Qed.
+
+Theorem C12_run_lines : forall ls R G, lines_rules ls = Some G -> run false (top R) (unlines ls) = top (R ++ G).
+Proof. exact run_lines. Qed.
+
+(* STRUCTURED VIEW: the lines of every compiled grammar (the generated template list run with abstract holes) *)
+Theorem C12_schema_lines : forall s env,
+  schema_lines s env = ((L_hdr ++ sc_name s) :: mid_lines s env) ++ [L_root].
+Proof. exact schema_lines_eq. Qed.
+
+(* sanitised names are in [A-Za-z0-9_] for EVERY input (no hypothesis on the lowering oracle) *)
+Theorem C12_sanitize_okc : forall l, forallb okc (sanitize_lowered l) = true.
+Proof. exact sanitize_okc. Qed.
+
+(* every field line of a safe schema is one rule with the expected name, allowed references, no empty alternative *)
+Theorem C12_all_fields_ok : forall s env, safe_schema s env = true ->
+  forallb (regex_field_ok (rule_names s ++ struct_names env)) (sc_fields s) = true.
+Proof. exact all_fields_ok. Qed.
+
+(* every non-REGEX right-hand side completes the rule, for every rule name / field name *)
+Theorem C12_constraint_rhs_good : forall c, not_regex c = true -> cst_scope_ok c = true -> pat_good (compile_constraint c).
+Proof. exact good_constraint. Qed.
+
+(* the text contains no NUL: the C-string cut is the identity *)
+Theorem C12_compile_no_nul : forall s env, safe_schema s env = true -> regex_nul_free s = true ->
+  forallb nz (compile_schema s env) = true.
+Proof. exact compile_nz. Qed.
+
+Theorem C12_grammar_of_wf : forall s env, safe_schema s env = true -> wf (grammar_of s env) = true.
+Proof. exact grammar_of_wf. Qed.
+
+(* non-vacuity: six fields of different kinds; the conclusion by computation and via the theorem *)
+Theorem C12_compile_wf_example_hyps :
+  safe_schema ex_schema true = true /\ regex_nul_free ex_schema = true /\ safe_schema ex_schema false = true.
+Proof. exact wf_example_hyps. Qed.
+
+Theorem C12_compile_wf_example : wf_text (compile_schema ex_schema true) = true.
+Proof. exact wf_example_by_theorem. Qed.
